@@ -59,6 +59,27 @@ theorem C07_links_eq_spec (t : List Desc) (bits : Bits) (o : SubsetOut) (rest : 
   have := (walk_links_eq_spec decPrimsU_rec t hwf _ s rfl rfl rfl rfl trivial hw hok).1
   rw [hl, this, hitems]
 
+/-- COMPLETENESS, spelled out: under the same hypotheses every marker value (223255 / 224255 / 225255 / 232255)
+    and every class 33 value in the stretch announced by 222000 (`Spec.consumes`) has got a link. -/
+theorem C07_links_complete (t : List Desc) (bits : Bits) (o : SubsetOut) (rest : Bits)
+    (h : decodeSubset t bits = .ok (o, rest)) (hwf : Spec.WFlinks t)
+    (hok : Spec.markersOk (o.descs.zip o.vals) = true) :
+    ∀ i, Spec.consumes (o.descs.zip o.vals) i = true → ∃ owner, (i, owner) ∈ o.links := by
+  obtain ⟨s, hw, hd, hv, hl⟩ := decodeSubset_items t bits o rest h
+  have hg := grows_walkList decPrimsU_rec t _ s (by rfl) hw
+  have hvals : s.vals.length = 1 := hg.2.2.1
+  have hV : decV s = (s.vals.headD []).reverse := by
+    unfold decV
+    cases hs : s.vals with
+    | nil => rw [hs] at hvals; cases hvals
+    | cons l r => rfl
+  have hitems : items decV s = o.descs.zip o.vals := by
+    unfold items; rw [hd, hv, hV]
+  rw [← hitems] at hok ⊢
+  intro i hi
+  obtain ⟨ow, hm⟩ := (walk_links_eq_spec decPrimsU_rec t hwf _ s rfl rfl rfl rfl trivial hw hok).2.2.2 i hi
+  exact ⟨ow, by rw [hl]; exact List.mem_reverse.mpr hm⟩
+
 /-! ### non-vacuity and the two excluded classes -/
 
 namespace C07ex
@@ -84,6 +105,13 @@ def tmplF2 : List Desc :=
   [.elem (e 1001 4), .op 223000, .fixedRep 101001 [.elem bit], .op 204002, .elem (e 31021 6), .op 223255, .op 204000]
 def bitsF2 : Bits := toBits 4 3 ++ [false] ++ toBits 6 1 ++ toBits 2 1 ++ toBits 2 2 ++ toBits 4 7
 end C07ex
+
+open C07ex in
+/-- the marker at 10 and the class 33 value at 6 of `out2` want an owner (and have one) -/
+example : Spec.consumes (out2.descs.zip out2.vals) 6 = true ∧ Spec.consumes (out2.descs.zip out2.vals) 10 = true ∧
+    Spec.consumes (out2.descs.zip out2.vals) 7 = false := by
+  refine ⟨?_, ?_, ?_⟩ <;> decide +kernel
+
 
 open C07ex in
 /-- the hypotheses of `C07_links_eq_spec` are met by a run with two bit-maps (one with a zero and a one bit), a
